@@ -41,6 +41,19 @@ def main(argv):
         return cmd_dump(argv[1:])
     if cmd == "facts":
         return cmd_facts(argv[1:])
+    if cmd == "explain":
+        import json
+        for pth in argv[1:]:
+            j = json.load(open(pth))
+            print("property : %s   (configuration %s)" % (j.get("property"), j.get("cfg")))
+            print("rule     : %s" % j.get("rule"))
+            print("instance : %s" % j.get("key"))
+            print("where    : %s  in %s" % (j.get("loc"), j.get("fn")))
+            print("what     : %s" % j.get("what"))
+            if j.get("witness") is not None:
+                print("witness  : %s" % json.dumps(j["witness"], indent=2))
+            print("re-check : ./verif check %s   (the verdict is recomputed from /repo's current tree; `./verif dump <fn>` prints the MIR facts of the function)" % j.get("property"))
+        return 0
     if cmd == "check":
         import check
         return check.main(argv[1:])
